@@ -117,10 +117,123 @@ def gen_dec(rng):
     return "dec %s %s %d %s %s" % (enc, mode, start, hexs(text), ",".join(map(str, cuts)) or "-")
 
 
+def rand_str(rng, nchars):
+    out = []
+    while len(out) < nchars:
+        r = rng.random()
+        if r < 0.3:
+            out.extend(rng.choice("abc <>&;\"'=/09") for _ in range(rng.choice([1, 2, 5, 20])))
+        else:
+            out.append(rand_char(rng))
+    return "".join(out[:nchars])
+
+
+def gen_tenc(rng, big=False):
+    enc = rng.choice(MODELLED[1:] + ["UTF-8"]) if rng.random() < 0.55 else rng.choice(ENCODINGS)
+    if big:
+        # >= 1 MiB of content: TextEncoder switches to the heap buffer (text_encoder.rs:33)
+        unit = rng.choice(["\u00e9", "\u00e9a", "\u20ac\u0416"])
+        s = unit * ((1 << 20) // len(unit.encode()) + rng.randrange(1, 50))
+        pieces = [rand_str(rng, 5), s, rand_str(rng, 70)]
+    else:
+        pieces = []
+        for _ in range(rng.choice([1, 1, 2, 3])):
+            r = rng.random()
+            n = rng.randrange(0, 20) if r < 0.5 else rng.randrange(20, 400) if r < 0.95 else rng.randrange(400, 6000)
+            if rng.random() < 0.3 and n > 10:
+                # one char repeated: fills the 63-byte buffer at every alignment
+                ch = rand_char(rng)
+                pieces.append(rand_str(rng, rng.randrange(0, 4)) + ch * n)
+            else:
+                pieces.append(rand_str(rng, n))
+    return "tenc %s %s" % (enc, ",".join(hexs(p.encode()) for p in pieces))
+
+
+BAD_UTF8 = [
+    b"\xed\xa0\x80", b"\xef\x80", b"\xfe", b"\xff", b"\xe0\x80", b"\xe0\x80\xaf", b"\xf0\x80\x80",
+    b"\xf0\x80\x80\x80", b"\xf7\xbf\xbf\xbf", b"\x80", b"\xbf", b"\xc0", b"\xc0\x80", b"\xc1\xbf", b"\xc2",
+    b"\xc2\x41", b"\xdf\xc0", b"\xe1\x80", b"\xe1\x80\xe2", b"\xf0\x91\x92", b"\xf1\xbf", b"\xed\x80",
+    b"\xf4\x90\x80\x80", b"\xf4\x8f\xbf", b"\xf5\x80", b"\xf8\x88\x80\x80\x80", b"\xe2\x82", b"\xf0\x9f\x90",
+    b"\xf0\x90\x80\x80\x80", b"\xe2\x82\xac\x80", b"\xf0\x9f", b"\xf0",
+]
+
+
+def gen_resync(rng):
+    parts = []
+    for _ in range(rng.choice([1, 2, 3, 5])):
+        r = rng.random()
+        if r < 0.6:
+            parts.append(rand_str(rng, rng.choice([1, 1, 2, 4])).encode())
+        elif r < 0.75:
+            parts.append(bytes(rng.choice(b"a<Z 0") for _ in range(rng.choice([1, 3]))))
+        else:
+            parts.append(None)
+    valid = rng.random() < 0.5
+    data = b"".join(p if p is not None else (rand_char(rng).encode() if valid else rng.choice(BAD_UTF8)) for p in parts)
+    n = len(data)
+    r = rng.random()
+    if r < 0.25:
+        cuts = list(range(1, n))  # one byte at a time
+    elif r < 0.35:
+        k = rng.choice([2, 3])
+        cuts = list(range(k, n, k))
+    else:
+        cuts = rand_cuts(rng, n)
+    return "resync %s %s" % (hexs(data), ",".join(map(str, cuts)) or "-")
+
+
+META_LABELS = ["utf-8", "UTF-8", "utf8", "windows-1252", "latin1", "iso-8859-1", "ascii", "iso-8859-7", "greek",
+               "bogus", "utf-16le", "utf-16be", "utf-16", "iso-2022-jp", "replacement", "x"]
+
+
+def meta_doc(script):
+    doc = b""
+    for t in script:
+        if t.startswith("M:"):
+            doc += ('<meta charset="%s">' % t[2:]).encode()
+        elif t.startswith("H:"):
+            doc += ('<meta http-equiv="Content-Type" content="text/html; charset=%s">' % t[2:]).encode()
+        elif t == "B":
+            doc += b"<b>"
+        else:
+            doc += bytes.fromhex(t[2:])
+    return doc
+
+
+def gen_meta(rng):
+    enc = rng.choice(MODELLED)
+    adjust = 1 if rng.random() < 0.85 else 0
+    script = []
+    for _ in range(rng.randrange(1, 9)):
+        r = rng.random()
+        if r < 0.35:
+            script.append(rng.choice(["M:", "M:", "H:"]) + rng.choice(META_LABELS))
+        elif r < 0.6:
+            script.append("B")
+        elif not (script and script[-1].startswith("T:")):
+            pool = b"abz 09.;" + bytes([0xE9, 0xE1, 0xA4, 0x80, 0xC3, 0xA9, 0xE2, 0x82, 0xAC, 0xCE, 0xB1, 0xFF, 0xD2])
+            script.append("T:" + bytes(rng.choice(pool) for _ in range(rng.randrange(1, 8))).hex())
+        else:
+            script.append("B")
+    n = len(meta_doc(script))
+    cuts = rand_cuts(rng, n)
+    return "meta %s %d %s %s" % (enc, adjust, ",".join(script), ",".join(map(str, cuts)) or "-")
+
+
 def gen(rng, n, tier, pid):
     out = []
-    for _ in range(n):
-        out.append(gen_dec(rng))
+    for i in range(n):
+        r = rng.random()
+        if i == n // 2 and n >= 500:
+            out.append(gen_tenc(rng, big=True))
+        elif r < 0.5:
+            out.append(gen_dec(rng))
+        elif r < 0.65:
+            out.append(gen_tenc(rng))
+        elif r < 0.88:
+            out.append(gen_resync(rng))
+        else:
+            out.append(gen_meta(rng))
     return out
 
 
@@ -134,4 +247,6 @@ def stats(cases, obs):
             d["dec:" + f[1]] = d.get("dec:" + f[1], 0) + 1
             if len(f[4]) > 2 * BUFFER_LEN:
                 d["dec:>1KiB"] = d.get("dec:>1KiB", 0) + 1
+        if k == "tenc":
+            d["tenc:" + f[1]] = d.get("tenc:" + f[1], 0) + 1
     return d
